@@ -46,7 +46,7 @@ def run(module, cfg=None, workers=8, dump=False, simulate=None, depth=None, env=
         # derive a config from the committed one by overriding `NAME = value` lines
         txt = open(os.path.join(cwd, cfg)).read()
         for k, v in constants.items():
-            txt, n = re.subn(r"(?m)^(\s*%s\s*=\s*).*$" % re.escape(k),
+            txt, n = re.subn(r"(?m)^(\s*(?:CONSTANTS?\s+)?%s\s*=\s*).*$" % re.escape(k),
                              lambda m: m.group(1) + str(v), txt)
             if n == 0:
                 raise TLCError("constant %s not in %s" % (k, cfg))
